@@ -701,12 +701,72 @@ pub fn one_history(rng: &mut Rng, sink: &mut Sink, n_ops: usize, allow_cons_off:
     }
 }
 
+/// Forests that hold a RUN of adjacent text nodes while consolidation is on (built with it off,
+/// then switched on), and moves of the run's own members relative to their parent and to each
+/// other: consolidating the place a text node leaves can remove the very neighbour or last child
+/// the call is about to use (seed C06f: `append(parent, middle text)` with a cached last child).
+pub fn adjacent_text_history(rng: &mut Rng, sink: &mut Sink, n_ops: usize) {
+    let mut s = Session::new();
+    s.exec(sink, "reset");
+    s.exec(sink, "cons 0");
+    let mut kids = vec![];
+    let lead = rng.below(3);
+    for i in 0..lead {
+        kids.push(if i % 2 == 0 { GTree::new(GValue::Element(3), vec![]) } else { GTree::leaf(GValue::Comment("c".into())) });
+    }
+    for i in 0..(3 + rng.below(3)) {
+        kids.push(GTree::leaf(GValue::Text(format!("{}", (b'a' + i as u8) as char))));
+    }
+    if rng.chance(1, 2) {
+        kids.push(GTree::new(GValue::Element(2), vec![]));
+        if rng.chance(1, 2) {
+            kids.push(GTree::leaf(GValue::Text("z".into())));
+            kids.push(GTree::leaf(GValue::Text("y".into())));
+        }
+    }
+    let parent = build_ops(&mut s, sink, &GTree::new(GValue::Element(4), kids));
+    if rng.chance(1, 2) {
+        build_ops(&mut s, sink, &GTree::new(GValue::Element(2), vec![GTree::leaf(GValue::Text("q".into()))]));
+    }
+    s.exec(sink, "cons 1");
+    sink.stat("family.adjacent-text-run");
+    let mut before = s.exec(sink, "dump");
+    for _ in 0..n_ops {
+        let live = s.live();
+        let texts: Vec<usize> = live.iter().copied().filter(|&l| s.xot.is_text(s.nodes[l])).collect();
+        if texts.is_empty() {
+            break;
+        }
+        let b = *rng.pick(&texts);
+        let a = if rng.chance(2, 3) { *rng.pick(&texts) } else { *rng.pick(&live) };
+        let own_parent = s.xot.parent(s.nodes[b]).and_then(|p| s.nodes.iter().position(|x| *x == p)).unwrap_or(parent);
+        let op = *rng.pick(&["append", "append", "prepend", "any_append", "insert_after", "insert_before", "replace", "detach", "remove", "wrap"]);
+        let req = match op {
+            "append" | "prepend" | "any_append" => format!("{} {} {}", op, if rng.chance(3, 4) { own_parent } else { a }, b),
+            "insert_after" | "insert_before" | "replace" => format!("{} {} {}", op, a, b),
+            "wrap" => format!("wrap {} 2", b),
+            _ => format!("{} {}", op, b),
+        };
+        sink.stat(&format!("op.{}", op));
+        let resp = s.exec(sink, &req);
+        sink.stat(&format!("resp.{}", resp.split(' ').next().unwrap()));
+        let after = s.exec(sink, "dump");
+        if !oracles(&mut s, sink, op, &req, &resp, &before, &after) {
+            return;
+        }
+        before = after;
+    }
+}
+
 pub fn run(seed: u64, count: usize, tier: &str, sink: &mut Sink) {
     let mut rng = Rng::new(seed ^ 0xF0E5);
     let n_ops = if tier == "quick" { 25 } else { 60 };
     directed_creation(sink);
     for i in 0..count {
         one_history(&mut rng, sink, n_ops, i % 4 == 3);
+        if i % 4 == 1 {
+            adjacent_text_history(&mut rng, sink, 6);
+        }
     }
 }
 
